@@ -91,6 +91,9 @@ func runC15(c *CaseCtx) (res CaseResult) {
 	if c.Idx%40 == 23 {
 		return runC15ArgSnapshot(c, r)
 	}
+	if c.Idx%80 == 31 {
+		return runC15SamePrinting(c, r)
+	}
 	det := map[string]interface{}{}
 	defer func() {
 		if p := recover(); p != nil {
@@ -187,6 +190,27 @@ func runC15(c *CaseCtx) (res CaseResult) {
 					res.violate("C15", "roundtrip-lost-value", fmt.Sprintf("value %d (%v) carries #%d after the signature round trip, want #%d", i, ls[i], id, ids[i]), det)
 				}
 				res.obs("roundtrip_values", 1)
+			}
+			// what was loaded stays loaded: the source set is given new
+			// values and rendered again; the second set still holds the
+			// values of the FIRST render, a third one gets the new ones
+			first := append([]int64{}, ids...)
+			if setAll(vs, 3000) {
+				sigB := vs.SignatureValues()
+				for i, v := range vs2.Values() {
+					if id, _ := idOf(v.Value); id != first[i] {
+						res.violate("C15", "roundtrip-lost-value", fmt.Sprintf("value %d (%v) of a set loaded from the first rendering changed from #%d to #%d when the source set was rendered again with new values", i, ls[i], first[i], id), det)
+					}
+				}
+				vs4, _ := mkSet()
+				if err := vs4.FromSignature(sigB); err == nil {
+					for i, v := range vs4.Values() {
+						if id, _ := idOf(v.Value); id != ids[i] {
+							res.violate("C15", "roundtrip-lost-value", fmt.Sprintf("value %d (%v) carries #%d after the second rendering, want #%d", i, ls[i], id, ids[i]), det)
+						}
+					}
+				}
+				res.obs("second_renderings_checked", 1)
 			}
 		}
 		// a second set of the same shape holds its own values: writing to it
